@@ -705,8 +705,20 @@ fn images(h: &TestHarness) -> J {
     json!({"I": padded(io.inputs()), "Q": padded(io.outputs()), "M": padded(io.memory())})
 }
 
+pub(crate) static DEPLOYED: std::sync::atomic::AtomicUsize = std::sync::atomic::AtomicUsize::new(0);
 fn setup(cfg: &J, src: &str, sh: &Arc<Mutex<Shared>>, retain_path: &std::path::Path) -> Result<TestHarness, String> {
     let mut h = TestHarness::from_source(src).map_err(|e| e.to_string())?;
+    // Every other configuration starts the deployed way: the tasks (intervals, priorities, SINGLE variables, program and
+    // FB associations) and image sizes the runtime works with are the ones the compiled container carries
+    // (apply_bytecode_bytes, as bin/trust-runtime/run.rs does it), not the ones the harness build registered.  A
+    // construct the bytecode compiler refuses stays on the direct path.
+    static DEPLOY_TURN: std::sync::atomic::AtomicUsize = std::sync::atomic::AtomicUsize::new(0);
+    if DEPLOY_TURN.fetch_add(1, std::sync::atomic::Ordering::SeqCst) % 2 == 1 {
+        if let Ok(bytes) = trust_runtime::harness::bytecode_bytes_from_source(src) {
+            h.runtime_mut().apply_bytecode_bytes(&bytes, None).map_err(|e| format!("apply_bytecode_bytes on the compiler's own container: {e}"))?;
+            DEPLOYED.fetch_add(1, std::sync::atomic::Ordering::SeqCst);
+        }
+    }
     UNIT_US.store(cfg["unitUs"].as_i64().unwrap_or(1000), std::sync::atomic::Ordering::SeqCst);
     MODEL_LEN.store(cfg["imgLen"].as_u64().unwrap() as usize, std::sync::atomic::Ordering::SeqCst);
     let img = cfg["rtLen"].as_u64().or(cfg["imgLen"].as_u64()).unwrap() as usize;
